@@ -446,12 +446,25 @@ impl Object for Pattern {
 }
 impl ObjectWrite for Pattern {
     fn to_primitive(&self, update: &mut impl Updater) -> Result<Primitive> {
+        // the required /PatternType (1: tiling pattern with a content stream, 2: shading pattern) is implied by the variant
+        fn tag(dict: &mut Dictionary, pattern_type: i32) {
+            dict.insert("Type", Primitive::name("Pattern"));
+            dict.insert("PatternType", Primitive::Integer(pattern_type));
+        }
         match self {
-            Pattern::Dict(ref d) => d.to_primitive(update),
+            Pattern::Dict(ref d) => match d.to_primitive(update)? {
+                Primitive::Dictionary(mut dict) => {
+                    tag(&mut dict, 2);
+                    Ok(Primitive::Dictionary(dict))
+                }
+                p => Ok(p)
+            },
             Pattern::Stream(ref d, ref ops) => {
                 let data = serialize_ops(ops)?;
                 let stream = Stream::new_with_filters(d.clone(), data, vec![]);
-                stream.to_primitive(update)
+                let mut stream = stream.to_pdf_stream(update)?;
+                tag(&mut stream.info, 1);
+                Ok(Primitive::Stream(stream))
             }
         }
     }
